@@ -180,4 +180,70 @@ def loop (api : EvalApi) : Nat → Block → Block
 /-- `flawless_process` -/
 def apply (api : EvalApi) (b : Block) : Block := loop api (b.size + 1) b
 
+/-! ### the defect regions
+
+* F25: an unused declaration with an effectful non-call value is replaced by a bare
+  `local _ = value` in the SAME scope — later reads of a global or outer `_` are captured.
+* F26: `local a, b` WITHOUT values, with some but not all names used, is removed entirely
+  (the `assignments` list is empty, so the used names are never re-declared) — later uses of
+  the removed name resolve to an outer variable or a global.
+* F27: a partially used declaration is regrouped — the trailing variables without a value
+  come FIRST (`remaining_unassigned_variables`); with a repeated name the visible binding changes.
+`H`: on every pass of the rule, no scope contains such a rewrite (F25 only counts when the
+program reads a variable named `_` somewhere). -/
+
+def distinctNames : List String → Bool
+  | [] => true
+  | n :: rest => !rest.contains n && distinctNames rest
+
+def declaresUnderscore : Option Stmt → Bool
+  | some (.localAssign _ ns _) => (tnames ns).contains "_"
+  | _ => false
+
+/-- reasons found while rewriting the statements of one scope -/
+def scanStmts (api : EvalApi) (readsUnderscore : Bool) (last : Option Last) (inExtra : List String) :
+    List Stmt → Option String → Option String
+  | [], w => w
+  | s :: rest, w =>
+    let w' : Option String :=
+      match w, s with
+      | some x, _ => some x
+      | none, .localAssign kind ns vs =>
+        let usages := (tnames ns).map fun id => isUsedAfter id rest last inExtra
+        let r := rewriteLocal api kind ns vs usages
+        if usages.any id && usages.any (!·) && !distinctNames (tnames ns) then
+          some "F27 partially used declaration with a repeated name is regrouped"
+        else if r.isNone && usages.any id then some "F26 declaration of a used variable removed"
+        else if readsUnderscore && declaresUnderscore r && !(tnames ns).contains "_" then
+          some "F25 introduces local _ in a scope that reads _"
+        else none
+      | none, _ => none
+    scanStmts api readsUnderscore last inExtra rest w'
+
+def scanScope (api : EvalApi) (readsUnderscore : Bool) : Block → Option Expr → Option String → (Block × Option Expr) × Option String
+  | .mk stmts last, extra, w =>
+    ((.mk stmts last, extra), scanStmts api readsUnderscore last (usagesInExtra stmts extra) stmts w)
+
+def readsProcessor : Processor Bool :=
+  { node := fun e s => match e with
+      | .var "_" => (e, true)
+      | _ => (e, s) }
+
+/-- some expression of the block is the variable `_` -/
+def readsUnderscore (b : Block) : Bool := (Visitor.runDefault readsProcessor b false).2
+
+def regionLoop (api : EvalApi) : Nat → Block → Option String
+  | 0, _ => none
+  | n + 1, b =>
+    let ru := readsUnderscore b
+    let (_, w0) := scanScope api ru b none none
+    match (Visitor.runDefault ({ scope := scanScope api ru } : Processor (Option String)) b w0).2 with
+    | some w => some w
+    | none =>
+      let (b', mutated) := pass api b
+      if mutated then regionLoop api n b' else none
+
+/-- `none`: inside `H` -/
+def outsideH (api : EvalApi) (b : Block) : Option String := regionLoop api (b.size + 1) b
+
 end DarkluaModel.Rules.UnusedVariable
